@@ -285,9 +285,27 @@ def quantizer_of(t: Term) -> Optional[str]:
     return None
 
 
+def r05c(ctx):
+    """Premise of C05: "hard-sampling mode" must really make every quantizer's coefficients a
+    one-hot.  Imported from C10: the hard branch of the MPS sampler (R10c) and the slot-by-slot
+    forwarding of the sampling options down to every quantizer (R10d)."""
+    from . import c10
+    before = len(ctx.obligations)
+    c10.r10c(ctx)
+    c10.r10d(ctx)
+    keep = []
+    for o in ctx.obligations[before:]:
+        if 'SuperNet' in o.construct:
+            continue            # C05 is about MPS
+        o.rule = 'R05c'
+        keep.append(o)
+    ctx.obligations[before:] = keep
+
+
 def run(ctx):
     r05a(ctx)
     r05b(ctx)
+    r05c(ctx)
     ctx.assume('vars(layer) contains the attributes assigned by the __init__ chain of the torch '
                'base class (parsed from torch source) and by the repository class')
 
